@@ -23,11 +23,11 @@ NCPU_ = os.cpu_count() or 4
 BIG = dict(MaxCalls=100000, MaxConn=48, MaxFly=64, MaxKeys=100000)
 
 
-def consts(ver, retries, *, ctrmod=3, calls=2, conn=3, fly=2, keys=3, life=True, hs="HSSome", data=None, hsretries=None):
+def consts(ver, retries, *, ctrmod=3, calls=2, conn=3, fly=2, keys=3, life=True, hs="HSSome", data=None, hsretries=None, halves=False):
     data = data or ("DataSome" if ver == 3 else "V2All")
     hsretries = hsretries if hsretries is not None else retries
     return (f"CONSTANTS\nRetries = {retries}\nVer = {ver}\nCtrMod = {ctrmod}\nHSRetries = {hsretries}\nDevLevel = FALSE\nMaxCalls = {calls}\nMaxConn = {conn}\n"
-            f"MaxFly = {fly}\nMaxKeys = {keys}\nLife = {'TRUE' if life else 'FALSE'}\nHSClasses <- {hs}\nDataClasses <- {data}\n")
+            f"MaxFly = {fly}\nMaxKeys = {keys}\nLife = {'TRUE' if life else 'FALSE'}\nHalves = {'TRUE' if halves else 'FALSE'}\nHSClasses <- {hs}\nDataClasses <- {data}\n")
 
 
 def mc(ctx: Ctx, ver, retries, *, name, timeout=3000, heap="10g", coverage=False, **kw):
@@ -135,6 +135,8 @@ def replay(scn, *, ver, retries, life=True, rng=None, seed=0, target="lan"):
                     s.peerclose()
                 elif a == "jumpauth":
                     s.jumpauth()
+                elif a == "jumphalf":
+                    s.jumphalf()
                 elif a == "jumplife":
                     s.jumplife()
                 elif a == "timer":
@@ -168,7 +170,7 @@ def replay(scn, *, ver, retries, life=True, rng=None, seed=0, target="lan"):
 def walk(seed, *, ver=3, retries=3, steps=40, life=True, weights=None, hs_mix=None, data_mix=None):
     rng = random.Random(f"walk:{seed}")
     s = sched.Session(version=ver, retries=retries, lifetime=LIFE if life else None, seed=seed)
-    W = {"cancel": 0.15, "peerclose": 0.1, "jumpauth": 0.3, "jumplife": 0.3, "call_auth_bad": 0.3, "connhang": 0.3, "connrefuse": 0.3,
+    W = {"cancel": 0.15, "peerclose": 0.1, "jumpauth": 0.3, "jumphalf": 0.4, "jumplife": 0.3, "call_auth_bad": 0.3, "connhang": 0.3, "connrefuse": 0.3,
          "deliver": 2.0, "drop": 0.15}
     W.update(weights or {})
     hs_all = hs_mix or (["valid"] * 4 + sched.REPLY_CLASSES_HS)
@@ -194,6 +196,8 @@ def walk(seed, *, ver=3, retries=3, steps=40, life=True, weights=None, hs_mix=No
                 s.peerclose()
             elif a == "jumpauth":
                 s.jumpauth()
+            elif a == "jumphalf":
+                s.jumphalf()
             elif a == "jumplife":
                 s.jumplife()
             elif a[0] == "deliver":
@@ -217,6 +221,7 @@ def model_enabled(s):
             en += ["call_auth_good", "call_auth_bad"] + (["call_send"] if lan._protocol_version == 3 else [])
         if proto is not None and s.version == 3 and getattr(proto, "_local_key", None) is not None and proto.authenticated:
             en.append("jumpauth")
+            en.append("jumphalf")
         exp = getattr(lan, "_connection_expiration", None)
         if proto is not None and s.lifetime is not None and exp is not None and vloop.VClock.now(exp.tzinfo) <= exp:
             en.append("jumplife")
@@ -258,7 +263,7 @@ def validate(ctx: Ctx, runs, *, ver, retries, name, what, conformance=True, focu
                 acts[k] = acts.get(k, 0) + 1
     if conformance:
         big = consts(ver, retries, ctrmod=4096, hsretries=3, calls=BIG["MaxCalls"], conn=BIG["MaxConn"], fly=BIG["MaxFly"], keys=BIG["MaxKeys"],
-                     life=True, hs="HSAll", data="DataAll" if ver == 3 else "V2All")
+                     life=True, hs="HSAll", data="DataAll" if ver == 3 else "V2All", halves=True)
         ok_runs = [(k, r) for k, r in enumerate(runs) if k not in bad]
         stuck = ctx.validate_chains("Trace_LanSession", [{"steps": r["steps"], "events": r["steps"]} for _, r in ok_runs],
                                     name=name + "_ls", consts=big)
